@@ -29,7 +29,7 @@ SOURCES = ["topology", "ugrid", "mpas", "exodus", "face_vertices_xyz"]
 
 def cases(tier, seed):
     rng = np.random.default_rng([seed, 707])
-    n = 340 if tier == "quick" else 6500
+    n = 340 if tier == "quick" else 30000
     for i in range(n):
         k = int(rng.integers(0, 5))
         yield {"mesh": gen.random_mesh(rng, 50 if tier == "quick" else 300), "fmt": FORMATS[i % 3], "via_file": bool(rng.random() < 0.4),
